@@ -41,8 +41,11 @@ PROPS = {
     ),
     "C16": dict(
         suite="csr",
-        modules=["CantoVerif.Props.C16"],
+        modules=["CantoVerif.Props.C16", "CantoVerif.Props.AbiCsr"],
         theorems=[
+            # Props/AbiCsr.lean: which payloads are malformed, exactly, under the model of the contract ABI the driver decides with
+            "CV.Abi.register_malformed_iff", "CV.Abi.assign_malformed_iff", "CV.Abi.register_decodes", "CV.Abi.assign_decodes",
+            "CV.Abi.register_roundtrip", "CV.Abi.assign_roundtrip", "CV.Abi.registerTys_eq_driver", "CV.Abi.assignTys_eq_driver",
             "CV.Csr.csr_inv_step", "CV.Csr.csr_inv", "CV.Csr.csr_inv_init", "CV.Csr.csr_inv_monitor", "CV.Csr.regInvB_iff",
             "CV.Csr.RegInv.iff", "CV.Csr.at_most_one_nft", "CV.Csr.only_turnstile_logs", "CV.Csr.only_turnstile_logs_postTx",
             "CV.Csr.malformed_noop", "CV.Csr.inert_receipt_noop", "CV.Csr.register_needs_code", "CV.Csr.assign_needs_code",
